@@ -481,8 +481,8 @@ def one_header(case, acc, b0, b1, length, infrag, z):
         # the reply lists only extensions the client does not know: nothing is negotiated
         hs, wskw = HS_UNKNOWN_EXT, dict(compress=True)
     elif ctx == 'unsolicited-deflate':
-        # the reply lists permessage-deflate although the client (compress=False) never offered it: not negotiated
-        hs, wskw = HS_DEFLATE, dict(compress=False)
+        # the reply lists permessage-deflate although the client (compress=False / None / 0) never offered it: not negotiated
+        hs, wskw = HS_DEFLATE, dict(compress=(False, None, 0)[(b0 + b1) % 3])
     w = H.World(H.hs_server([('raw', stream), ('eof',)], hs))
     run = H.drive(w, ws_kwargs=wskw, connect_kwargs=dict(ping_rate=0))
     acc.executed()
